@@ -184,3 +184,8 @@ func (d *CtrlDriver) Tick() bool {
 
 	return progress
 }
+
+// NewPort builds and registers a port for a harness component of this assembly.
+func (a *Asm) NewPort(comp messaging.Component, name string, buf int) messaging.Port {
+	return a.port(comp, name, buf)
+}
